@@ -164,13 +164,46 @@ def run(ctx):
                          {"boc": d.hex()})
     ctx.extra["adversarial_headers"] = n_adv
 
+    # the same shared sub-DAG present TWICE as distinct Python objects (as after parsing one bag twice), joined under one
+    # root: equality between the two copies must not walk the sub-DAG (the traversal relies on hash-based equality)
+    from pytoniq_core.boc.cell import Cell
+    for k in (21, 60, 200):
+        d = c03.diamond(k)
+        ctx.note_case(["twin-objects", k])
+        a, b = cells.build_py(d)[-1], Cell.one_from_boc(cells.build_py(d)[-1].to_boc())
+        root = Cell(cells.tvm_bits("1"), [a, b], -1)
+        n_eq = [0]
+        orig_eq = Cell.__eq__
+        budget = 400 * (k + 3)
+
+        def counted_eq(self, other, _o=orig_eq):
+            n_eq[0] += 1
+            if n_eq[0] > budget:
+                raise BudgetExceeded()
+            return _o(self, other)
+        Cell.__eq__ = counted_eq
+        try:
+            try:
+                calls, dt, blob = count_hash_calls(lambda: (root.order({}), root.to_boc(), a == b, root == root.copy())[1],
+                                                   budget=400 * (k + 3))
+            except BudgetExceeded:
+                calls, blob = -1, None
+        finally:
+            Cell.__eq__ = orig_eq
+        if blob is None:
+            ctx.fail("order-work-superlinear:twin-objects", f"{k + 2} distinct cells present as two object graphs: more than "
+                     f"{budget} equality/hash operations in order()/to_boc() (cut off)", {"twin": k})
+        elif len(Cell.one_from_boc(blob).order({})) != k + 2:
+            ctx.fail("twin-objects-not-merged", "equal cells held in distinct objects were written twice", {"twin": k})
+
     # dictionary parser on DAG-shaped and malformed dictionaries: calls of the edge parser per distinct cell
     n_dict = 0
     for kind, n in [("shared-valid", 6), ("shared-valid", 12), ("shared-valid", 20), ("shared-valid", 60),
                     ("shared-pruned", 12), ("shared-pruned", 60),
                     ("label-longer-than-key", 12), ("label-longer-than-key", 24), ("label-longer-than-key", 60),
                     ("aug-label-longer-than-key", 24), ("label-longer-than-key-long-forks", 24),
-                    ("aug-label-longer-than-key-long-forks", 40)]:
+                    ("aug-label-longer-than-key-long-forks", 40),
+                    ("short-label-longer-than-key", 24), ("short-label-longer-than-key", 60), ("aug-short-label-longer-than-key", 40)]:
         n_dict += 1
         ctx.note_case(["dict-adversarial", kind, n])
         r = core.call_impl(lambda _: dict_case(kind, n), None, timeout_s=30)
@@ -264,7 +297,9 @@ def dict_case(kind, n):
                 m = 4 - 6 - depth                  # remaining key length at that depth after the over-long root label
                 cur = Builder().store_bits("10" + "0" * abs(m).bit_length()).store_ref(cur).store_ref(cur).end_cell()
         # root: hml_long$10 n:(#<= 4)=6 (3 bits) s:6 bits -> 2 bits more than the key has
-        cur = Builder().store_bits("10" + "110" + "000000").store_ref(cur).store_ref(cur).end_cell()
+        # (kinds with "short": the same over-long label written as hml_short$0 111111 0 s:6 bits)
+        root_label = "0" + "111111" + "0" + "000000" if "short" in kind else "10" + "110" + "000000"
+        cur = Builder().store_bits(root_label).store_ref(cur).store_ref(cur).end_cell()
         key_len = 4
     cells_n = n + 2
     budget = 200 * cells_n
